@@ -30,6 +30,9 @@
 #include <stdexcept>
 #include <variant>
 #include <cassert>
+#include <cmath>
+#include <cstdio>
+#include <cstdlib>
 #include <cstring>
 
 using namespace UTAP;
@@ -1083,6 +1086,22 @@ static const char* get_builtin_fun_name(kind_t kind)
     return funNames[kind - ABS_F];
 }
 
+/** Prints a floating point constant with just enough digits to read back the same value,
+    and always as a floating point literal (2.0 must not turn into the integer 2). */
+static std::ostream& print_double(std::ostream& os, double value)
+{
+    char buf[40];
+    for (int precision = 15; precision <= 17; ++precision) {
+        std::snprintf(buf, sizeof(buf), "%.*g", precision, value);
+        if (std::strtod(buf, nullptr) == value)
+            break;
+    }
+    os << buf;
+    if (std::isfinite(value) && std::strpbrk(buf, ".e") == nullptr)
+        os << ".0";
+    return os;
+}
+
 static inline std::ostream& embrace_strict(std::ostream& os, bool old, const expression_t& expr, int precedence)
 {
     if (precedence > expr.get_precedence())
@@ -1122,7 +1141,7 @@ std::ostream& expression_t::print(std::ostream& os, bool old) const
         print_bound_type(os, get(0));
         get(1).print(os, old);
         os << (flag ? "]([] " : "](<> ");
-        get(2).print(os, old) << ") >= " << get(3).get_double_value();
+        print_double(get(2).print(os, old) << ") >= ", get(3).get_double_value());
         break;
 
     case PROBA_BOX: flag = true; [[fallthrough]];
@@ -1264,7 +1283,7 @@ std::ostream& expression_t::print(std::ostream& os, bool old) const
     case CONSTANT:
 
         if (get_type().is(Constants::DOUBLE)) {
-            os << get_double_value();
+            print_double(os, get_double_value());
         } else if (get_type().is_string()) {
             os << get_string_value();
         } else if (get_type().is_integer()) {
